@@ -9,7 +9,7 @@ from harness import htaio
 from harness.props import common as C
 from harness.props.c04 import _COMM, _MEM, is_computation
 
-N_CASES = {"quick": 120, "thorough": 2000}
+N_CASES = {"quick": 200, "thorough": 2000}
 SHRINK = True
 ASSUMPTIONS = [
     "integer timestamps after loading; non-negative durations; no kernel is literally named 'others'",
